@@ -7,6 +7,8 @@ pub mod sqlbind;
 pub mod tape;
 
 pub mod prop;
+pub mod fuzzglue;
+pub mod fuzzrun;
 
 use std::path::PathBuf;
 
